@@ -4,7 +4,7 @@ from .. import gen
 from ..core import hx
 
 # (names that only START with two dots are ordinary names: Kubernetes-style "..data", "...")
-NAMES = [b"a", b"b", b"c", b"a.txt", b"a-b", b"d", b"l", b"k", b"foo", b"a b", b"..data", b"...", b"..2"]
+NAMES = [b"a", b"b", b"c", b"a.txt", b"a-b", b"d", b"l", b"k", b"foo", b"a b", b"..data", b"...", b"..2", b"[v1]x"]
 
 
 def link_tree(rng):
@@ -63,7 +63,7 @@ class FollowLinks(Suite):
             "non-trivial = tree with >= 1 symlink and >= 1 request, distinct")
 
     def gen(self, rng, tier):
-        n = {"quick": 2500, "thorough": 80000, "search": 500}[tier]
+        n = {"quick": 6000, "thorough": 80000, "search": 500}[tier]
         ops = []
         for k in range(n):
             if k % 1250 == 7:
@@ -120,6 +120,14 @@ class FollowLinks(Suite):
                     q = rng.choice(links or paths) + b"/" + rng.choice([b"*", b"a*", b"?", b"*.txt", b"[a-l]*"])
                     if rng.random() < 0.3:
                         q += b"/" + rng.choice(NAMES)
+                elif r < 0.66 and paths:
+                    # a component with an ESCAPED metacharacter followed by a real wildcard ("\\[v1\\]*"): still a pattern
+                    q = rng.choice(paths)
+                    cs = q.split(b"/")
+                    i = rng.randrange(len(cs))
+                    esc = lambda c: b"".join(b"\\" + bytes([x]) if x in b"*?[]\\" else bytes([x]) for x in c)
+                    cs[i] = esc(cs[i][:max(1, len(cs[i]) - 1)]) + b"*"
+                    q = b"/".join(cs)
                 elif r < 0.7:
                     q = rng.choice([b".", b"/", b"", b"nonexistent", b"a/../b", b"/a", b"./a", b"a/"])
                 elif r < 0.75:
@@ -188,6 +196,12 @@ class FollowLinks(Suite):
         # F12: a request has a wildcard in a middle component, implementation = model, and the requests without one are fine
         "F12": lambda op, impl, model: model.get("midwild") and impl.get("out") == model.get("m") and
         (model.get("spec_nomid") is True or model.get("spec_sep_nomid") is True or model.get("spec_keyed_nomid") is True),
+        # F32: a link whose resolution text has a component with a pattern metacharacter, implementation = model, and the variant of
+        # the model that takes link-target components literally (shared, fresh or keyed memo) meets the reference
+        # (on a disk source the name that was not recognised as a link is then walked THROUGH: a cyclic one gives ELOOP from lstat)
+        "F32": lambda op, impl, model: model.get("metalink") is True and
+        ((impl.get("out") == model.get("m") and not impl.get("ferr")) or "too many levels of symbolic links" in str(impl.get("ferr"))) and
+        (model.get("spec_lit") is True or (model.get("midwild") and model.get("spec_lit_nomid") is True)),
     }
 
 
